@@ -420,8 +420,10 @@ theorem C19_src_iterate (t : T) : SuiteUtilSkel.iterateI Generated.SuiteSrc.iter
 own `filter_by_ids` method → delegate; has `id` → keep the case or put a NEW empty `unittest.TestSuite()` in its place;
 `TestSuite` → children filtered in place; then `return` the object -/
 theorem C19_src_filter (S : Nat → Bool) (t : T) : SuiteUtilSkel.filterI Generated.SuiteSrc.filterByIds S t = filterIds S t := by
-  have e : Generated.SuiteSrc.filterByIds = SuiteUtilSkel.refFilter := by decide
-  rw [e]; exact SuiteUtilSkel.filterI_ref S t
+  -- evaluated on the generated case list for each kind of node (so cases whose tests exclude each other may come in any order)
+  apply SuiteUtilSkel.filterI_sem _ S (by decide)
+  · intro id; simp [Generated.SuiteSrc.filterByIds, SuiteUtilSkel.chooseAct, SuiteUtilSkel.FTest.holds]
+  · intro k cs; cases k <;> simp [Generated.SuiteSrc.filterByIds, SuiteUtilSkel.chooseAct, SuiteUtilSkel.FTest.holds]
 
 /-- the model's `flatten` is the interpretation of `_flatten_tests` as found in the source: a case is one item; a plain suite
 (or the outer one when asked) is unpacked recursively; any other suite is one item whose key is taken BEFORE its `sort_tests`
@@ -447,8 +449,8 @@ theorem C19_src_load_list (i : Input) :
     SuiteUtilSkel.loadedI Generated.SuiteSrc.loadList Generated.SuiteSrc.iterateTests Generated.SuiteSrc.filterByIds
         (fun x => i.ids.contains x) i.tree = some (model i).loaded := by
   have e1 : Generated.SuiteSrc.iterateTests = SuiteUtilSkel.refIter := by decide
-  have e2 : Generated.SuiteSrc.filterByIds = SuiteUtilSkel.refFilter := by decide
   have e3 : Generated.SuiteSrc.loadList = SuiteUtilSkel.refLoadList := by decide
-  rw [e1, e2, e3]; exact SuiteUtilSkel.loadedI_ref _ i.tree
+  rw [e1, e3]
+  simp [SuiteUtilSkel.loadedI, SuiteUtilSkel.refLoadList, C19_src_filter, SuiteUtilSkel.iterateI_ref, model]
 
 end TTV.Props.C19
